@@ -147,6 +147,7 @@ func buildEventQuery(
 		if f.Tags != nil {
 			sub = sub.Distinct()
 
+			tagIdx := 0
 			for key, values := range f.Tags {
 				tagHashes := make([][]byte, len(values))
 				for i, value := range values {
@@ -154,7 +155,10 @@ func buildEventQuery(
 					tagHashes[i] = b[:]
 				}
 
-				etag := t.As("etag" + key)
+				// identifiers are case-insensitive in sqlite: #e and #E must not
+				// share an alias
+				etag := t.As(fmt.Sprintf("etag%d", tagIdx))
+				tagIdx++
 
 				sub = sub.
 					Join(etag, goqu.On(
